@@ -426,24 +426,24 @@ def build_fn(item, text, chunks, tagbase):
         head += f'#[{a}]\n'
     vis = (item.vis + ' ') if item.vis else ''
     qual = ' '.join(w for w in re.findall(r'\b(const|async|unsafe)\b', prefix))
-    chunks.append(Chunk(head + vis + (qual + ' ' if qual else '') + sig.rstrip() + '\n', tagbase + ':sig'))
+    chunks.append(Chunk(head + vis + (qual + ' ' if qual else '') + sig.rstrip() + '\n', tagbase + '|sig'))
     if item.requires:
-        chunks.append(Chunk('    requires\n', tagbase + ':sig'))
+        chunks.append(Chunk('    requires\n', tagbase + '|sig'))
         for c in item.requires:
-            chunks.append(Chunk(f'        {c.text},\n', f'{tagbase}:requires:{c.label}'))
+            chunks.append(Chunk(f'        {c.text},\n', f'{tagbase}|requires|{c.label}'))
     if item.ensures:
-        chunks.append(Chunk('    ensures\n', tagbase + ':sig'))
+        chunks.append(Chunk('    ensures\n', tagbase + '|sig'))
         for c in item.ensures:
-            chunks.append(Chunk(f'        {c.text},\n', f'{tagbase}:ensures:{c.label}'))
+            chunks.append(Chunk(f'        {c.text},\n', f'{tagbase}|ensures|{c.label}'))
     if item.returns:
-        chunks.append(Chunk(f'    returns {item.returns},\n', f'{tagbase}:ensures:returns'))
+        chunks.append(Chunk(f'    returns {item.returns},\n', f'{tagbase}|ensures|returns'))
     if item.decreases:
-        chunks.append(Chunk(f'    decreases {item.decreases},\n', f'{tagbase}:decreases'))
+        chunks.append(Chunk(f'    decreases {item.decreases},\n', f'{tagbase}|decreases'))
     if item.no_unwind:
-        chunks.append(Chunk('    no_unwind\n', tagbase + ':sig'))
-    chunks.append(Chunk('{\n', tagbase + ':sig'))
+        chunks.append(Chunk('    no_unwind\n', tagbase + '|sig'))
+    chunks.append(Chunk('{\n', tagbase + '|sig'))
     if item.proof_start:
-        chunks.append(Chunk(item.proof_start.rstrip() + '\n', tagbase + ':proof:start'))
+        chunks.append(Chunk(item.proof_start.rstrip() + '\n', tagbase + '|proof|start'))
     # tail hints
     tail = None
     if item.proof_tail:
@@ -460,42 +460,42 @@ def build_fn(item, text, chunks, tagbase):
         cs = []
         if L['kind'] == 'for':
             nm = lp.name or f'it_{ordinal}'
-            ins.append((L['in_end'], [Chunk(f' {nm}:', f'{tagbase}:body')]))
+            ins.append((L['in_end'], [Chunk(f' {nm}:', f'{tagbase}|body')]))
             if lp.iter_suffix:
-                cs.append(Chunk(lp.iter_suffix, f'{tagbase}:body'))
-        cs.append(Chunk('\n', f'{tagbase}:body'))
+                cs.append(Chunk(lp.iter_suffix, f'{tagbase}|body'))
+        cs.append(Chunk('\n', f'{tagbase}|body'))
         if lp.invariant_except_break:
-            cs.append(Chunk('            invariant_except_break\n', f'{tagbase}:body'))
+            cs.append(Chunk('            invariant_except_break\n', f'{tagbase}|body'))
             for c in lp.invariant_except_break:
-                cs.append(Chunk(f'                {c.text},\n', f'{tagbase}:loop{ordinal}:invariant:{c.label}'))
+                cs.append(Chunk(f'                {c.text},\n', f'{tagbase}|loop{ordinal}|invariant|{c.label}'))
         if lp.invariant:
-            cs.append(Chunk('            invariant\n', f'{tagbase}:body'))
+            cs.append(Chunk('            invariant\n', f'{tagbase}|body'))
             for c in lp.invariant:
-                cs.append(Chunk(f'                {c.text},\n', f'{tagbase}:loop{ordinal}:invariant:{c.label}'))
+                cs.append(Chunk(f'                {c.text},\n', f'{tagbase}|loop{ordinal}|invariant|{c.label}'))
         if lp.ensures:
-            cs.append(Chunk('            ensures\n', f'{tagbase}:body'))
+            cs.append(Chunk('            ensures\n', f'{tagbase}|body'))
             for c in lp.ensures:
-                cs.append(Chunk(f'                {c.text},\n', f'{tagbase}:loop{ordinal}:ensures:{c.label}'))
+                cs.append(Chunk(f'                {c.text},\n', f'{tagbase}|loop{ordinal}|ensures|{c.label}'))
         if lp.decreases:
-            cs.append(Chunk(f'            decreases {lp.decreases},\n', f'{tagbase}:loop{ordinal}:decreases'))
+            cs.append(Chunk(f'            decreases {lp.decreases},\n', f'{tagbase}|loop{ordinal}|decreases'))
         ins.append((L['brace_start'], cs))
         if lp.proof_start:
-            ins.append((L['brace_end'], [Chunk('\n' + lp.proof_start.rstrip() + '\n', f'{tagbase}:proof:loop{ordinal}:start')]))
+            ins.append((L['brace_end'], [Chunk('\n' + lp.proof_start.rstrip() + '\n', f'{tagbase}|proof|loop{ordinal}|start')]))
         if lp.proof_end:
-            ins.append((L['close_start'], [Chunk('\n' + lp.proof_end.rstrip() + '\n', f'{tagbase}:proof:loop{ordinal}:end')]))
+            ins.append((L['close_start'], [Chunk('\n' + lp.proof_end.rstrip() + '\n', f'{tagbase}|proof|loop{ordinal}|end')]))
     pos = 0
     for p, cs in sorted(ins, key=lambda x: x[0]):
-        chunks.append(Chunk(body[pos:p], tagbase + ':body'))
+        chunks.append(Chunk(body[pos:p], tagbase + '|body'))
         chunks.extend(cs)
         pos = p
-    chunks.append(Chunk(body[pos:], tagbase + ':body'))
+    chunks.append(Chunk(body[pos:], tagbase + '|body'))
     if tail is not None:
-        chunks.append(Chunk('\n    let __vx_r = {', tagbase + ':body'))
-        chunks.append(Chunk(tail, tagbase + ':body'))
-        chunks.append(Chunk('};\n', tagbase + ':body'))
-        chunks.append(Chunk(item.proof_tail.rstrip() + '\n', tagbase + ':proof:tail'))
-        chunks.append(Chunk('    __vx_r\n', tagbase + ':body'))
-    chunks.append(Chunk('\n}\n', tagbase + ':sig'))
+        chunks.append(Chunk('\n    let __vx_r = {', tagbase + '|body'))
+        chunks.append(Chunk(tail, tagbase + '|body'))
+        chunks.append(Chunk('};\n', tagbase + '|body'))
+        chunks.append(Chunk(item.proof_tail.rstrip() + '\n', tagbase + '|proof|tail'))
+        chunks.append(Chunk('    __vx_r\n', tagbase + '|body'))
+    chunks.append(Chunk('\n}\n', tagbase + '|sig'))
 
 
 class Assembled:
@@ -527,9 +527,9 @@ class Assembled:
 def _rank(tag):
     if tag is None:
         return 0
-    if ':ensures:' in tag or ':invariant:' in tag or ':requires:' in tag or ':decreases' in tag:
+    if '|ensures|' in tag or '|invariant|' in tag or '|requires|' in tag or '|decreases' in tag:
         return 3
-    if ':proof:' in tag:
+    if '|proof|' in tag:
         return 2
     return 1
 
@@ -540,17 +540,17 @@ def assemble(unit):
     A = Assembled()
     ch = A.chunks
     hdr = getattr(unit, 'HEADER', '')
-    ch.append(Chunk('#![allow(unused, non_snake_case, non_camel_case_types, dead_code)]\n' + hdr + '\nuse vstd::prelude::*;\n' + getattr(unit, 'USES', '') + '\nverus! {\n', 'hdr'))
+    ch.append(Chunk('#![allow(unused, non_snake_case, non_camel_case_types, dead_code)]\n' + hdr + '\nuse vstd::prelude::*;\n' + getattr(unit, 'USES', '') + '\nverus! {\n/// vstd\'s spec set (cedar has its own `Set` type)\npub type SSet<A> = vstd::set::Set<A>;\n', 'hdr'))
     for f in getattr(unit, 'STDMODEL', []):
         with open(os.path.join(ROOT, 'stdmodel', f)) as fh:
-            ch.append(Chunk(f'// ---- stdmodel/{f} ----\n' + fh.read() + '\n', f'stdmodel:{f}'))
+            ch.append(Chunk(f'// ---- stdmodel/{f} ----\n' + fh.read() + '\n', f'stdmodel|{f}'))
     open_wrap = None
     for it in unit.ITEMS:
         if it.kind == 'raw':
             if it.file:
                 with open(os.path.join(unit.DIR, it.file)) as fh:
                     text = fh.read()
-                tag = f'{it.tag}:{it.file}'
+                tag = f'{it.tag}|{it.file}'
             else:
                 text = it.text
                 tag = it.tag
@@ -578,7 +578,7 @@ def assemble(unit):
             if wrap is not None:
                 ch.append(Chunk(wrap + ' {\n', 'wrap'))
             open_wrap = wrap
-        tagbase = f'item:{it.name}'
+        tagbase = f'item|{it.name}'
         A.items.append({'name': it.name, 'kind': it.kind, 'file': it.file, 'path': it.path, 'fingerprint': fp,
                         'lines': [line0, line1], 'props': it.props})
         if it.kind == 'fn':
@@ -589,7 +589,7 @@ def assemble(unit):
             if it.pub_fields:
                 t = _pub_fields(t)
             head = ''.join(f'#[{a}]\n' for a in it.attrs)
-            ch.append(Chunk(head + 'pub ' + t.rstrip() + '\n' + (it.suffix + '\n' if it.suffix else ''), tagbase + ':type'))
+            ch.append(Chunk(head + 'pub ' + t.rstrip() + '\n' + (it.suffix + '\n' if it.suffix else ''), tagbase + '|type'))
     if open_wrap is not None:
         ch.append(Chunk('}\n', 'wrap'))
     ch.append(Chunk('\n} // verus!\nfn main() {}\n', 'hdr'))
